@@ -70,11 +70,27 @@ def gen_case(rng):
             'script': script}
 
 
+def gen_paced(rng):
+    """an application that hands data to TCP at its own pace (`Flow.arrival_dist` / `size_dist`): the sender process
+    then waits *inside* its loop, between looking at the window and sending, so ACKs, duplicate ACKs and timeouts land
+    during such waits.  These flows are outside the sender LTS (which models `size`-driven flows); they are run on the
+    implementation only and judged by the direct oracle (window test at the moment of sending, window rules)."""
+    c = gen_case(rng)
+    c['size'] = None
+    c['ccmss'] = 512
+    c['cwnd'] = rng.choice([1, 2, 4, 4, 8, 16]) * 512
+    w = rng.choice([1.0, 0.5, 0.25, round(rng.uniform(0.05, 2.0), 2)])
+    c['arrival'] = rng.choice([[w], [w], [w, 0.0], [w, 0.0, 0.0, 2 * w], [0.0, 0.0, 3 * w]])
+    c['sizes'] = rng.choice([[512], [512], [1024], [512, 1536], [300, 212, 512], [2048]])
+    return c
+
+
 def run_impl(case):
     env = Environment()
     rec = Recorder()
     cc = make_cc(case['kind'], case['ccmss'], case['cwnd'], case['ssthresh'])
-    sr = SenderRun(env, case['kind'], cc, case['rtt_estimate'], case['size'], rec)
+    sr = SenderRun(env, case['kind'], cc, case['rtt_estimate'], case['size'], rec,
+                   arrival=case.get('arrival'), sizes=case.get('sizes'))
     s = sr.sender
     done = [INF]
     rng = random.Random(json.dumps(case['script'], sort_keys=True))   # resolves 'outstanding' / 'odd' choices
@@ -199,6 +215,8 @@ def oracle(case, sr, hist):
             for q, sz, t in r['tx']:
                 if sz != MSS or q != nxt:
                     bad(f'new segment {q}/{sz}: not MSS-sized or not consecutive (expected seq {nxt})', 'send-not-consecutive', r)
+                if not (q + MSS <= a['buf']):
+                    bad(f'new segment {q} sent beyond the buffered data ({a["buf"]})', 'send-beyond-buffer', r)
                 if not (q + MSS <= b['lack'] + b['cwnd']):
                     bad(f'new segment {q} sent outside the window: {q}+{MSS} > last_ack {b["lack"]} + cwnd {b["cwnd"]}',
                         'send-outside-window', r)
@@ -310,6 +328,7 @@ def run(ctx):
     else:
         n = 1000 if ctx.quick else 30000
         cases = [gen_case(rng) for _ in range(n)]
+        cases += [gen_paced(rng) for _ in range(n // 4)]
     disagreements, oracle_failures = [], []
     hist = collections.Counter()
     samples = []
@@ -319,7 +338,7 @@ def run(ctx):
     for base in range(0, len(cases), CH):
         chunk = list(enumerate(cases[base:base + CH], base))
         runs = {i: run_impl(c) for i, c in chunk}
-        model = model_batch('tcpsender', [runs[i][0].text(i) for i, c in chunk], 300)
+        model = model_batch('tcpsender', [runs[i][0].text(i) for i, c in chunk if not c.get('arrival')], 300)
         for i, c in chunk:
             sr, ended = runs[i]
             m = model.get(str(i))
@@ -331,7 +350,9 @@ def run(ctx):
                     hist['tx-' + ('new' if r['tag'] == 'W' else 'resend')] += len(r['tx'])
             if sr.error:
                 hist['impl-raised-' + (type(sr.error[1]).__name__ if sr.error[1] is not None else 'budget')] += 1
-            if sr.trace != m:
+            if c.get('arrival'):
+                hist['paced-flow-oracle-only'] += 1
+            elif sr.trace != m:
                 d = first_diff(sr.trace, m)
                 disagreements.append({'case': c,
                                       'detail': f'line {d[0]}: impl `{d[1][:300]}` model `{d[2][:300]}` {explain_diff(d[1], d[2])}',
@@ -356,7 +377,7 @@ def run(ctx):
         'rule': 'distinct ACK histories containing at least one loss event (third duplicate ACK or retransmission timeout) and '
                 'at least one new ACK in congestion avoidance (cwnd > ssthresh)',
         'samples': samples,
-        'traces_validated_against_impl': len(cases) - len(disagreements),
+        'traces_validated_against_impl': len(cases) - len(disagreements) - hist['paced-flow-oracle-only'],
         'observation_lines_compared': lines_compared,
         'operation_histogram': dict(sorted(hist.items())),
         'translated': translate.TRANSLATED,
